@@ -306,7 +306,14 @@ func (o *oracle) checkMsg(fc *fileCtx, scopePath []string, kind string, virt, pr
 		if df.Label != want.Label {
 			o.fail("C02 field cardinality", "declared cardinality", fmt.Sprintf("%s: %s", fat, df.Label), want.Label)
 		}
-		if df.Opt3 != want.Opt3 {
+		if (p.F.Kind == "array" || p.F.Kind == "map") && p.Optional {
+			// "repeated" has no presence: an optional array / map is a plain repeated field
+			// (a repeated member of a synthetic oneof is not a valid descriptor)
+			want.Opt3 = false
+			if df.Opt3 {
+				o.fail("C02 optional array / map marked proto3_optional (repeated field in a synthetic oneof)", "declared cardinality and optionality", fmt.Sprintf("%s: %s proto3_optional", fat, df.Label), "repeated, not proto3_optional")
+			}
+		} else if df.Opt3 != want.Opt3 {
 			o.fail("C02 field optionality (proto3_optional)", "declared optionality", fmt.Sprintf("%s: %v", fat, df.Opt3), fmt.Sprint(want.Opt3))
 		}
 		if df.Oneof != want.Oneof {
